@@ -105,9 +105,14 @@ class WARCRecorder(object):
 
     def _check_journals_and_maybe_raise(self):
         '''Check if any journal files exist and raise an error.'''
-        files = list(glob.glob(
-            glob.escape(self._prefix_filename) + '*-wpullinc'
-        ))
+        # Not with glob: its "*" does not match a leading dot, which the
+        # name has when the prefix ends with the directory separator.
+        dir_path, name_prefix = os.path.split(self._prefix_filename)
+        files = [
+            os.path.join(dir_path, name)
+            for name in sorted(os.listdir(dir_path or os.curdir))
+            if name.startswith(name_prefix) and name.endswith('-wpullinc')
+        ] if os.path.isdir(dir_path or os.curdir) else []
 
         if files:
             raise OSError('WARC file {} is incomplete.'.format(files[0]))
